@@ -637,7 +637,9 @@ func (e *env) c02() {
 			// the same single move through the UCI position command (every castling, en-passant and
 			// promotion move, a sample of the others): `position fen F moves m` + `fen`
 			special := m.Promo() != NoPiece || (piece == King && (d == 2 || d == -2)) || (piece == Pawn && captured == NoPiece && d%8 != 0)
-			if !b.InvalidPieceCount() && (special || e.c.Rng.IntN(8) == 0) {
+			// (no filter on the implementation's own piece-count gate: the position is valid, and the gate
+			// accepts every valid position - C11 pieceCount_accepts_valid - so a rejection shows up below)
+			if special || e.c.Rng.IntN(8) == 0 {
 				r2 := b.MakeMove(m)
 				uciWant = append(uciWant, b.FEN())
 				b.UndoMove(m, r2)
@@ -738,7 +740,7 @@ func (e *env) c02() {
 			var valid bool
 			fen, _ = e.s.Next()
 			b, valid, _ = e.load("C02", fen)
-			if b != nil && valid && !b.InvalidPieceCount() {
+			if b != nil && valid { // not filtered by the implementation's own piece-count gate (see above)
 				break
 			}
 		}
@@ -800,6 +802,8 @@ func (e *env) walks(prop string) {
 	}
 	if prop == "C04" {
 		e.transpositions()
+		// the hash invariants past a halfmove clock of 100 / 127 / the int8 wrap
+		e.clockWalks(prop, e.c.Pick(30, 900))
 	}
 	if prop == "C03" {
 		e.deepWalks(prop, e.c.Pick(40, 1200))
